@@ -1,7 +1,7 @@
 """C01 - normalised export is a fixed point of import-then-export; the normal form is canonical."""
 from __future__ import annotations
 
-from ..common import Ctx
+from ..common import subseed, Ctx
 from ..gen.workload import make_doc, cases
 from .. import kpx
 
@@ -145,6 +145,24 @@ def run(ctx: Ctx):
     if ctx.tier == 'thorough':
         for cs in cases(ctx, 'c01long', 2):
             one(ctx, cs, 'default', long_rows=1500, measures=(20, 40), p_split=0.03)
+    if ctx.shard is None or ctx.shard[0] == 0:
+        # environment axis: source texts (hostile spellings: repeated signifiers, signifiers on some chord members only) and their own
+        # normal forms, imported and exported in child interpreters under other hash seeds, warnings as errors, ASCII default encoding,
+        # -O and another current directory: same errors (none), same normal form everywhere
+        from .. import envchild
+        from ..gen.workload import make_doc as _mk
+        texts = []
+        for i in range(4):
+            dd, _ = _mk(subseed(ctx.seed, 'c01env', i), ['default', 'kern_only', 'splitty', 'long_tokens'][i], measures=(1, 3), hostile=0.9,
+                        p_chord=0.4)
+            t0 = dd.text(0)
+            texts.append(t0)
+            r0 = kpx.loads(t0)
+            if r0[0] is not None and not r0[1]:
+                y0 = kpx.dumps(r0[0])[0]
+                if y0:
+                    texts.append(y0)
+        envchild.run_variants(ctx, texts)
     docs = ctx.monitor_events.get('documents', 0)
     okd = ctx.monitor_events.get('precondition_ok', 0)
     if docs and okd / docs < 0.95:
